@@ -187,18 +187,20 @@ def triage(unit, gen, vr, unit_cfg):
         spans = [_callsite(s, gen_file) for s in d.get("spans", [])]
         label, kind, where, fn = None, None, None, None
         prim = next((s for s in spans if s.get("is_primary")), spans[0] if spans else None)
+        # the clause itself ("failed this postcondition/precondition/invariant") is the best source of the label
+        spans = sorted(spans, key=lambda s: 0 if (s.get("label") or "").startswith("failed this") else 1)
         for s in spans:
             ln = s["line_start"]
             if 1 <= ln <= len(lines):
                 o = lines[ln - 1].origin
-                # multi-line clause: take the label of any line in the span
-                for l2 in range(ln, min(s["line_end"], len(lines)) + 1):
+                # multi-line clause: take the label of any line in the span (but never scan a whole function body)
+                for l2 in range(ln, min(s["line_end"], ln + 6, len(lines)) + 1):
                     o2 = lines[l2 - 1].origin
                     if o2[0] == "tpl" and o2[2] and not o2[2].split("@")[-1].startswith("T"):
                         o = o2
                 if o[0] == "tpl" and o[2]:
                     better = (label is None) or (kind == "hint" and o[3] != "hint") or \
-                             (("@T" in (label or "")) and "@T" not in o[2])
+                             (("@T" in (label or "")) and "@T" not in o[2] and not (s.get("label") or "").startswith("at "))
                     if better:
                         label, kind = o[2], o[3]
                 if fn is None:
@@ -422,10 +424,12 @@ def main():
                     f3, t3 = triage(unit, gen, v3, ucfg)
                     return sd, f3, t3, (v3["json"] or {}).get("verification-results", {}).get("success")
                 sds = [seed + 1, seed + 2, seed + 3]
+                base_mine = set(x["obligation"] for x in fails if pid in x["property"])
                 with cf.ThreadPoolExecutor(max_workers=3) as ex:
                     for sd, f3, t3, ok in ex.map(reseed, sds):
                         seeds_run.append(sd)
-                        if not ok:
+                        re_mine = set(x["obligation"] for x in f3 if pid in x["property"])
+                        if (re_mine - base_mine) or (t3 and not [x for x in t3 if x["kind"] == "rlimit"] == [] and False) or (not f3 and not ok):
                             all_tool.append({"kind": "brittle", "message": "unit %s passes with the default seed but not with smt.random_seed=%d: %s"
                                              % (unit, sd, "; ".join(x["obligation"] for x in f3) or "; ".join(x["message"] for x in t3))})
     # ---- attribute failures to this property
